@@ -216,6 +216,49 @@ func init() {
 		"(*sync.WaitGroup).Add":  unsupported("sync.WaitGroup"),
 		"(*sync.WaitGroup).Wait": unsupported("sync.WaitGroup"),
 
+		// sync/atomic on the executor's boxed cells (single-threaded: plain loads and stores)
+		"(*sync/atomic.Pointer[T]).Store": func(fr *frame, a []value) value {
+			(*a[0].(*value)).(structure)[atomicPtrField(a[0])] = a[1]
+			return nil
+		},
+		"(*sync/atomic.Pointer[T]).Load": func(fr *frame, a []value) value {
+			v := (*a[0].(*value)).(structure)[atomicPtrField(a[0])]
+			if p, ok := v.(*value); ok {
+				return p
+			}
+			return (*value)(nil)
+		},
+		"(*sync/atomic.Pointer[T]).CompareAndSwap": func(fr *frame, a []value) value {
+			s := (*a[0].(*value)).(structure)
+			k := atomicPtrField(a[0])
+			cur, _ := s[k].(*value)
+			if cur == a[1].(*value) {
+				s[k] = a[2]
+				return true
+			}
+			return false
+		},
+		"sync/atomic.LoadInt32":   atomicLoad,
+		"sync/atomic.LoadInt64":   atomicLoad,
+		"sync/atomic.LoadUint32":  atomicLoad,
+		"sync/atomic.LoadUint64":  atomicLoad,
+		"sync/atomic.StoreInt32":  atomicStore,
+		"sync/atomic.StoreInt64":  atomicStore,
+		"sync/atomic.StoreUint32": atomicStore,
+		"sync/atomic.StoreUint64": atomicStore,
+		"sync/atomic.AddInt32":    atomicAdd,
+		"sync/atomic.AddInt64":    atomicAdd,
+		"sync/atomic.AddUint32":   atomicAdd,
+		"sync/atomic.AddUint64":   atomicAdd,
+		"sync/atomic.CompareAndSwapInt32": func(fr *frame, a []value) value {
+			p := a[0].(*value)
+			if fr.i.truth(fr.i.eqValue(nil, *p, a[1])) {
+				*p = a[2]
+				return true
+			}
+			return false
+		},
+
 		"runtime/debug.Stack": func(fr *frame, a []value) value {
 			return []value{byte('s'), byte('t'), byte('a'), byte('c'), byte('k')}
 		},
@@ -277,6 +320,21 @@ func isExportedIntrinsic(fr *frame, a []value) value {
 	}
 	r, _ := utf8.DecodeRuneInString(a[0].(string))
 	return unicode.IsUpper(r)
+}
+
+func atomicPtrField(p value) int {
+	return len((*p.(*value)).(structure)) - 1 // the last field of atomic.Pointer[T] is the pointer word
+}
+
+func atomicLoad(fr *frame, a []value) value { return *a[0].(*value) }
+func atomicStore(fr *frame, a []value) value {
+	*a[0].(*value) = a[1]
+	return nil
+}
+func atomicAdd(fr *frame, a []value) value {
+	p := a[0].(*value)
+	*p = fr.i.binop(token.ADD, nil, *p, a[1])
+	return *p
 }
 
 func nop(fr *frame, a []value) value { return nil }
